@@ -1238,6 +1238,23 @@ func emitCodes(e *emitter, order []string, vars map[string]string) {
 
 // ---------------------------------------------------------------- structural facts
 
+// callsOfFunc lists the calls of the plain function `name` inside fd
+func callsOfFunc(fd *ast.FuncDecl, name string) []string {
+	var res []string
+	if fd == nil {
+		return res
+	}
+	ast.Inspect(fd, func(n ast.Node) bool {
+		if c, ok := n.(*ast.CallExpr); ok {
+			if id, ok := c.Fun.(*ast.Ident); ok && id.Name == name {
+				res = append(res, exprString(c))
+			}
+		}
+		return true
+	})
+	return res
+}
+
 // exprString2 renders a statement of a select's comm clause
 func exprString2(st ast.Stmt) string {
 	switch x := st.(type) {
@@ -1316,7 +1333,11 @@ func emitStruct() {
 	e.f("/-- `ReadAtLeast` calls in `Message.readHeader` / `readBody`, `SetCurrentStream` calls in readHeader -/\n")
 	e.f("def sctpHeaderReads : List String := %s\n", strList(callsOf(findFunc(msg, "Message", "readHeader"), "ReadAtLeast")))
 	e.f("def sctpHeaderPins : List String := %s\n", strList(callsOf(findFunc(msg, "Message", "readHeader"), "SetCurrentStream")))
-	e.f("def sctpBodyReads : List String := %s\n", strList(callsOf(findFunc(msg, "Message", "readBody"), "ReadAtLeast")))
+	bodyReads := callsOf(findFunc(msg, "Message", "readBody"), "ReadAtLeast")
+	if len(bodyReads) == 0 {
+		bodyReads = callsOf(findFunc(msg, "", "readBodyBytes"), "ReadAtLeast")
+	}
+	e.f("def sctpBodyReads : List String := %s\n", strList(bodyReads))
 	sctpf := parseFile("diam/network_sctp.go")
 	e.f("/-- stream-level reads inside `SCTPConn.ReadAtLeast` -/\ndef sctpAtLeastReads : List String := %s\n",
 		strList(append(callsOf(findFunc(sctpf, "SCTPConn", "ReadAtLeast"), "ReadAny"), callsOf(findFunc(sctpf, "SCTPConn", "ReadAtLeast"), "ReadStream")...)))
@@ -1324,6 +1345,30 @@ func emitStruct() {
 		strList(callsOf(findFunc(parseFile("diam/server.go"), "conn", "readMessage"), "ResetCurrentStream")))
 	e.f("/-- `SCTPWrite` argument of `SCTPConn.WriteStream` and the stream assignment -/\ndef sctpWriteStreamCalls : List String := %s\n",
 		strList(callsOf(findFunc(sctpf, "SCTPConn", "WriteStream"), "SCTPWrite")))
+
+	// message.go: is a large body read piecewise (memory grows with the data received), and in
+	// pieces of what size?  0 = the whole declared length is allocated at once
+	chunk := 0
+	if fd := findFunc(msg, "", "readBodyBytes"); fd != nil {
+		hasLoop := false
+		ast.Inspect(fd, func(n ast.Node) bool {
+			if _, ok := n.(*ast.ForStmt); ok {
+				hasLoop = true
+			}
+			return true
+		})
+		usedByReadBody := len(callsOfFunc(findFunc(msg, "Message", "readBody"), "readBodyBytes")) == 1
+		if hasLoop && usedByReadBody {
+			env := constEnv{}
+			for _, c := range constsOf(msg, env, false) {
+				_ = c
+			}
+			if v, ok := env["bodyChunkLength"]; ok && v != nil && v.IsInt64() {
+				chunk = int(v.Int64())
+			}
+		}
+	}
+	e.f("/-- `readBodyBytes`: size of the pieces in which a large body is read (0: not read piecewise) -/\ndef bodyChunkLength : Nat := %d\n", chunk)
 
 	// conn.serve: is the handler call a plain expression statement inside the for loop?
 	srv := parseFile("diam/server.go")
